@@ -58,6 +58,7 @@ class Handshake:
     def __init__(self, headers: List[Tuple[bytes, bytes]], http_version: str) -> None:
         self.accepted = False
         self.http_version = http_version
+        self.malformed = False
         self.connection_tokens: Optional[List[str]] = None
         self.extensions: Optional[List[str]] = None
         self.key: Optional[bytes] = None
@@ -66,21 +67,24 @@ class Handshake:
         self.version: Optional[bytes] = None
         for name, value in headers:
             name = name.lower()
-            if name == b"connection":
-                self.connection_tokens = split_comma_header(value)
-            elif name == b"sec-websocket-extensions":
-                self.extensions = split_comma_header(value)
-            elif name == b"sec-websocket-key":
-                self.key = value
-            elif name == b"sec-websocket-protocol":
-                self.subprotocols = split_comma_header(value)
-            elif name == b"sec-websocket-version":
-                self.version = value
-            elif name == b"upgrade":
-                self.upgrade = value
+            try:
+                if name == b"connection":
+                    self.connection_tokens = split_comma_header(value)
+                elif name == b"sec-websocket-extensions":
+                    self.extensions = split_comma_header(value)
+                elif name == b"sec-websocket-key":
+                    self.key = value
+                elif name == b"sec-websocket-protocol":
+                    self.subprotocols = split_comma_header(value)
+                elif name == b"sec-websocket-version":
+                    self.version = value
+                elif name == b"upgrade":
+                    self.upgrade = value
+            except UnicodeDecodeError:
+                self.malformed = True  # Not ASCII, answered with a 400
 
     def is_valid(self) -> bool:
-        if self.http_version < "1.1":
+        if self.malformed or self.http_version < "1.1":
             return False
         elif self.http_version == "1.1":
             if self.key is None:
